@@ -41,6 +41,7 @@ type c32Scenario struct {
 	Deadline   bool        `json:"deadline"`              // endpoints set a 20 s deadline
 	KillAtMs   int         `json:"kill_at_ms"`            // the harness closes the transport at this simulated time (0 = never)
 	CertsOnly  bool        `json:"certs_only,omitempty"`
+	Fingerprint bool       `json:"fingerprint,omitempty"` // the client sends a ClientFingerprintConfiguration hello
 	Skip       bool        `json:"skip_verify,omitempty"`
 	Tape       []int       `json:"tape,omitempty"`
 }
@@ -56,6 +57,7 @@ func genC32(seed uint64, tier string) any {
 		}
 	}
 	sc.CertsOnly = r.Chance(1, 8)
+	sc.Fingerprint = r.Chance(1, 7)
 	sc.Skip = r.Chance(1, 4)
 	sc.Deadline = r.Chance(3, 4)
 	sc.KillAtMs = []int{0, 1, 20, 200, 2000, 30000}[r.Intn(6)]
@@ -243,6 +245,31 @@ func c32Configs(sc *c32Scenario, run *simRun) (*tls.Config, *tls.Config) {
 	ccfg := clientConfig(sc.Client, s, run.R.Derive("cli-rand"))
 	ccfg.CertsOnly = sc.CertsOnly
 	ccfg.InsecureSkipVerify = sc.Skip
+	if sc.Fingerprint {
+		suites := sc.Client.Suites
+		if len(suites) == 0 {
+			suites = []uint16{0xc02f, 0xc02b, 0xc013, 0xc009, 0x009c, 0x002f, 0x0035}
+		}
+		var legacy []uint16
+		for _, id := range suites {
+			if s := suiteByID[id]; s != nil && s.Kx != kxTLS13 {
+				legacy = append(legacy, id)
+			}
+		}
+		if len(legacy) == 0 {
+			legacy = []uint16{0xc02f, 0x002f}
+		}
+		ccfg.ForceSuites = true
+		ccfg.ClientFingerprintConfiguration = &tls.ClientFingerprintConfiguration{
+			HandshakeVersion:   vTLS12,
+			InsertTimestamp:    sc.Seed%2 == 0,
+			CipherSuites:       legacy,
+			CompressionMethods: []uint8{0},
+			Extensions: []tls.ClientExtension{&tls.SNIExtension{Autopopulate: true}, &tls.SupportedCurvesExtension{Curves: []tls.CurveID{tls.X25519, tls.CurveP256}},
+				&tls.PointFormatExtension{Formats: []uint8{0}}, &tls.SignatureAlgorithmExtension{SignatureAndHashes: []uint16{0x0401, 0x0501, 0x0201}},
+				&tls.SessionTicketExtension{Autopopulate: true}, &tls.StatusRequestExtension{}, &tls.SecureRenegotiationExtension{}},
+		}
+	}
 	if sc.Client.Cache {
 		ccfg.ClientSessionCache = tls.NewLRUClientSessionCache(2)
 	}
